@@ -315,6 +315,8 @@ def run_shard(shard, rec):
                             "by": by, "joins": JOINS, "poke": True}
                     check_case(case, rec)
                     if m <= 2 and len(rt) <= 2:
+                        # a right frame whose ONLY column is the key: a match that brings no column is still a match
+                        check_case({"L": case["L"], "R": [[rname, rkind, rt]], "by": by, "joins": JOINS[:-1]}, rec)
                         check_case(dict(case, grouped=True, poke=False), rec)
                         if shard["renamed"]:
                             check_case(dict(case, pair_form="list", poke=False), rec)
